@@ -20,11 +20,21 @@ def outcome(mm, name, j):
     return "loss", None, u
 
 
-def _violates(mm):
+def _violates(mm, kind=None, detail=None):
+    """Localisation predicate: the sub-value violates on its own *in the same way* as the whole did (a loss stays a
+    loss, a raise keeps its exception class).  Without that, descending into an alias that cannot be a structuring
+    root at all (a listed known finding) would re-label an unrelated loss as that known finding."""
     def f(name, j):
         if impl.lsp().__dict__.get(name) is None:
             return False
-        return outcome(mm, name, j)[0] != "ok"
+        k, d, _ = outcome(mm, name, j)
+        if k == "ok":
+            return False
+        if kind is None:
+            return True
+        if k != kind:
+            return False
+        return kind != "raise" or detail is None or d[0] == detail[0]
     return f
 
 
@@ -33,7 +43,7 @@ def judge(mm, name, j, opts):
     if kind == "ok":
         return 1, "ok", []
     out = []
-    for site, node in localize(mm, name, j, _violates(mm)):
+    for site, node in localize(mm, name, j, _violates(mm, kind, detail)):
         sroot = site.split(".")[0]
         skind, sdetail, su = outcome(mm, sroot, node)
         if skind == "ok":       # cannot happen (localize only returns violating nodes)
@@ -121,6 +131,32 @@ def bounds(ctx):
     return (2, 1), (2, 1)
 
 
+def _site_task(args):
+    """Union-site shapes of C14 (every alternative in its minimal neighbourhood and its maximal form, heterogeneous and
+    long arrays, other member orders, key-name strings) embedded in the owner roots and round-tripped."""
+    idx, k = args
+    from . import c14
+    from ..vse import VSE
+    from ..mm import is_null_type
+    from ..explore import root_class
+    mm = get_mm()
+    vse = VSE(mm)
+    ok, on, path, ort, via = c14.union_sites(mm)[idx]
+    n = 0
+    vs = []
+    roots = [r for r in c14.roots_for_site(mm, ok, on, path) if root_class(r[0]) is not None and r[0] not in mm.aliases]
+    for alt in ort["items"]:
+        for slabel, v in ([("null", None)] if is_null_type(alt) else c14.shapes(mm, vse, alt, k, site_or=ort)):
+            for rname, rt, rpath in roots:
+                j = c14.embed(mm, vse, rt, rpath, v)
+                if j is None or not mm.valid(j, rt, True):
+                    continue
+                ne, oc, out = judge(mm, rname, j, {})
+                n += ne
+                vs += out
+    return n, vs
+
+
 def run(ctx):
     mm = get_mm()
     res = Result()
@@ -142,17 +178,27 @@ def run(ctx):
     res.merge_violations(c_viols)
     if c_note:
         res.notes.append(c_note)
+    import multiprocessing as _mp
+    from . import c14
+    nsites = len(c14.union_sites(mm))
+    with _mp.get_context("fork").Pool(ctx.workers) as pool:
+        sparts = pool.map(_site_task, [(i, 2 if ctx.thorough else 1) for i in range(nsites)], chunksize=2)
+    site_execs = sum(p[0] for p in sparts)
+    for p in sparts:
+        res.merge_violations(p[1])
+    c_evals += site_execs
     capped = a1["capped"] + a2["capped"]
     res.coverage = {
         "states": a1["states"] + a2["states"],
         "transitions": a1["transitions"] + a2["transitions"],
         "traces_validated_against_impl": a1["evals"] + a2["evals"] + c_evals,
         "evaluations": a1["evals"] + a2["evals"] + c_evals,
-        "testdata_true_vectors_round_tripped": c_evals, "testdata_vector_outcomes": c_outcomes,
+        "testdata_true_vectors_round_tripped": c_evals - site_execs, "testdata_vector_outcomes": c_outcomes, "union_site_shape_executions": site_execs,
         "distinct_nontrivial": a1["distinct_nt"] + a2["distinct_nt"],
         "rule": "every VSE derivation (deviation-bounded walk of the metamodel grammar) of every root, de-duplicated on "
                 "(root, canonical JSON); non-trivial = cost >= 1 or from the maximal base; plus every message the testdata plugin labels True and MM "
-                "judges valid (a second, independently generated set of wide and deeply nested values)",
+                "judges valid (a second, independently generated set of wide and deeply nested values); plus every union site x alternative x shape of C14 "
+                "(maximal alternatives, heterogeneous and long arrays, other member orders) embedded in its owner roots",
         "roots": {"structures": len(roots_s), "aliases_and_envelopes": len(roots_o)},
         "bounds": {"structures": {"min_base_k": ks_min, "max_base_k": ks_max},
                    "aliases_envelopes": {"min_base_k": ke_min, "max_base_k": ke_max}},
